@@ -103,6 +103,7 @@ type vEnv struct {
 	refresh chan interface{}
 	cancel  context.CancelFunc
 	notify  chan interface{}
+	left    int // number of bars in the list the shutdown notifier received (set by vFinish)
 }
 
 func vNewContainer(mode vMode, q int, extra ...ContainerOption) *vEnv {
@@ -154,7 +155,11 @@ func (e *vEnv) vFinish(id string, bars ...*Bar) {
 		bars[0].SetTotal(5, true)
 		bars[0].Abort(true)
 	}
-	<-e.notify
+	if l, ok := (<-e.notify).([]*Bar); ok {
+		e.left = len(l)
+	} else {
+		e.left = -1
+	}
 	vAssert(e.rec.late == 0, id+".nothing-written-after-Wait")
 	vCover(id + ".waited")
 }
@@ -351,6 +356,9 @@ func vsS4() {
 		}
 	}
 	if at == 3 {
+		if mode == vManual && vParam("closeRefresh") != 0 {
+			close(e.refresh) // the client is done refreshing; cancellation must still end the container
+		}
 		stop()
 	}
 	e.p.Wait()
@@ -441,7 +449,21 @@ func vsS5() {
 	if e.rec.fail > 0 && e.rec.n >= e.rec.fail {
 		vAssert(e.rec.n == e.rec.fail, "S5.no-frame-after-the-failing-write")
 	}
-	<-e.notify
+	got, _ := (<-e.notify).([]*Bar)
+	want := 0
+	if b0 != nil {
+		want++
+	}
+	if b1 != nil {
+		want++
+	}
+	if m0.framesAtFail >= 0 || mx.framesAtFail >= 0 {
+		want-- // the bar whose frame carried the error leaves the container
+	}
+	if m1.framesAtFail >= 0 {
+		want--
+	}
+	vAssert(len(got) == want, "S5.notifier-lists-every-bar-still-in-the-container")
 	vAssert(e.rec.late == 0, "S5.nothing-written-after-Wait")
 	vCover("S5.waited")
 }
@@ -454,7 +476,12 @@ func vsS6() {
 	if pop {
 		extra = append(extra, PopCompletedMode())
 	}
-	e := vNewContainer(mode, -1, extra...)
+	q := -1
+	if vParam("queueLen0") != 0 {
+		q = 0 // every push finds the request queue full
+	}
+	dup := vParam("dupID") != 0
+	e := vNewContainer(mode, q, extra...)
 	when := vParam("successorAfterPredecessorFinished")
 	if when == 2 && mode != vManual {
 		when = 0 // "between completion and the last frames" is only a definite point under manual refresh
@@ -470,8 +497,14 @@ func vsS6() {
 		}
 		return opts
 	}
-	other, _ := e.p.Add(2, m3, withSync([]BarOption{BarFillerTrim()}, 1)...)
+	optsOther := withSync([]BarOption{BarFillerTrim()}, 1)
 	optsPred := withSync([]BarOption{BarFillerTrim()}, 2)
+	if dup {
+		// bar ids need not be unique: an unrelated bar carries the predecessor's id and finishes first
+		optsOther = append(optsOther, BarID(5))
+		optsPred = append(optsPred, BarID(5))
+	}
+	other, _ := e.p.Add(2, m3, optsOther...)
 	if vParam("rmPred") != 0 {
 		optsPred = append(optsPred, BarRemoveOnComplete())
 	}
@@ -482,6 +515,17 @@ func vsS6() {
 		if two {
 			succ2, _ = e.p.Add(2, m2, BarFillerTrim(), BarQueueAfter(pred))
 		}
+	}
+	if dup && early {
+		other.IncrBy(2)
+		if mode == vManual {
+			e.refresh <- nil
+			e.refresh <- nil
+			e.refresh <- nil
+		} else {
+			other.Wait()
+		}
+		vAssert(m1.fills == 0, "S6.successor-not-displayed-while-its-own-predecessor-runs")
 	}
 	pred.IncrBy(2)
 	if when == 2 {
@@ -924,10 +968,20 @@ func vsS14() {
 	<-done
 	vAssert(id == 0, "S14.id")
 	vAssert(cur == 0 || cur == 2, "S14.getter-sees-a-state-on-some-sequential-order")
+	// a late Abort(true) on the finished bar from a goroutine that is not ordered with the frames drawn meanwhile
+	done2 := make(chan struct{})
+	go func() {
+		<-sig
+		b.Abort(true)
+		b.SetRefill(1)
+		close(done2)
+	}()
+	sig <- struct{}{}
 	if mode == vManual {
 		e.refresh <- nil
 		e.refresh <- nil
 	}
+	<-done2
 	e.vFinish("S14", b)
 	vAssert(b.ID() == 0 && b.Current() == 2 && b.Completed(), "S14.final-state")
 }
